@@ -206,6 +206,11 @@ func (w *World) projectProvider(c *Chain, ctx sdk.Context) map[string]any {
 		chans[ch.ChannelId] = map[string]any{"state": ch.State.String(), "order": ch.Ordering.String(), "conn": conn, "client": cl}
 	}
 	s["chans"] = chans
+	conns := map[string]any{}
+	for _, ce := range app.GetIBCKeeper().ConnectionKeeper.GetAllConnections(ctx) {
+		conns[ce.Id] = ce.ClientId
+	}
+	s["conns"] = conns
 	return s
 }
 
@@ -517,6 +522,11 @@ func (w *World) projectConsumer(c *Chain, ctx sdk.Context) map[string]any {
 		s["provClient"] = ""
 	}
 	s["xferChan"] = ck.GetDistributionTransmissionChannel(ctx)
+	cconns := map[string]any{}
+	for _, ce := range c.CApp.GetIBCKeeper().ConnectionKeeper.GetAllConnections(ctx) {
+		cconns[ce.Id] = ce.ClientId
+	}
+	s["conns"] = cconns
 	// balances of the fee accounts
 	bal := map[string]any{}
 	for nm, mod := range map[string]string{"fee": authtypes.FeeCollectorName, "redist": consumertypes.ConsumerRedistributeName, "toSend": consumertypes.ConsumerToSendToProviderName} {
@@ -685,7 +695,13 @@ func txObservations(w *World, c *Chain, tx TxSpec, r TxResult) map[string]any {
 					dport = a.Value
 				}
 			}
-			recvd = append(recvd, w.describePacket(dport, data))
+			dp := w.describePacket(dport, data)
+			for _, a := range e.Attributes {
+				if a.Key == channeltypes.AttributeKeyDstChannel {
+					dp["dstChan"] = a.Value
+				}
+			}
+			recvd = append(recvd, dp)
 		case providertypes.EventTypeCreateConsumer:
 			for _, a := range e.Attributes {
 				if a.Key == providertypes.AttributeConsumerId {
